@@ -643,7 +643,8 @@ pub fn wrap_gzip(stream: &[u8], plain: &[u8], flags: u8, extra_len: usize, name_
 }
 
 /// size_mode: what the local header says about the sizes - 0 the truth, 1 nothing (general purpose
-/// bit 3: written by a streaming archiver, the sizes follow the data), 2 too little, 3 too much.
+/// bit 3: written by a streaming archiver, the sizes follow the data), 2 too little, 3 too much,
+/// 4 the Zip64 marker.
 /// The property speaks of "a ZIP local file header with method 8", whatever else it says.
 pub fn wrap_zip(stream: &[u8], plain: &[u8], name_len: usize, extra_len: usize, size_mode: usize, rng: &mut Rng) -> Vec<u8> {
     let mut v = Vec::new();
@@ -657,6 +658,7 @@ pub fn wrap_zip(stream: &[u8], plain: &[u8], name_len: usize, extra_len: usize, 
         1 => (0u32, 0u32, 0u32),
         2 => (crc32fast::hash(plain), (stream.len() / 2) as u32, plain.len() as u32),
         3 => (crc32fast::hash(plain), stream.len() as u32 + 1000, plain.len() as u32),
+        4 => (crc32fast::hash(plain), 0xffff_ffff, 0xffff_ffff),       // the Zip64 marker
         _ => (crc32fast::hash(plain), stream.len() as u32, plain.len() as u32),
     };
     v.extend_from_slice(&crc.to_le_bytes());
